@@ -114,7 +114,105 @@ def handle(req):
         except BaseException as e:
             return {"ok": True, "outcome": "raise", "exc": type(e).__name__,
                     "excmod": type(e).__module__, "msg": str(e)[:200]}
+    if op == "replay":
+        return replay(req)
+    if op == "search":
+        return search(req)
     raise ValueError("unknown op " + op)
+
+
+def replay(req):
+    """call the real function on concrete inputs and evaluate the contract clause natively"""
+    f = eval(req["func"], NS)
+    args = {k: dec(a) for k, a in req["args"].items()}
+    out = {"ok": True}
+    try:
+        r = f(**args)
+        out.update(outcome="return", value=enc(r))
+    except BaseException as e:
+        r = None
+        out.update(outcome="raise", exc=type(e).__name__, msg=str(e)[:200])
+    env = dict(args)
+    env.update(spec=NS.get("spec"), implies=lambda a, b: (not a) or b, result=r, old=lambda x: x)
+    cl = req["clause"]
+
+    def ev(src):
+        return bool(eval(src, dict(NS), env))
+    try:
+        pre_ok = all(ev(p) for p in req.get("requires", []))
+        out["precondition_holds"] = pre_ok
+        if cl["kind"] == "ensures":
+            w = ev(cl["when"]) if cl.get("when") else True
+            if out["outcome"] == "return":
+                out["clause_holds"] = (not w) or ev(cl["expr"])
+            else:
+                out["clause_holds"] = None
+        elif cl["kind"] == "raises":
+            w = ev(cl["expr"])
+            raised = out["outcome"] == "raise" and excmatch(out["exc"], cl["exc"])
+            out["clause_holds"] = (w == raised)
+            out["when"] = w
+        elif cl["kind"] == "unexpected":
+            out["clause_holds"] = not (out["outcome"] == "raise" and out["exc"] == cl["exc"].split(".")[-1])
+    except BaseException as e:
+        out["clause_error"] = "%s: %s" % (type(e).__name__, e)
+    return out
+
+
+def gen_value(t, rng):
+    """random small/boundary value for a contract parameter type"""
+    if t in ("int", "nat", "byte"):
+        lo = 0 if t != "int" else -3
+        pool = [0, 1, 2, 3, 7, 8, 15, 16, 17, 127, 128, 255, 256, 257, 65535, 65536, 2**31, 2**64 - 1, 2**64, 2**255 - 19, 2**256]
+        if t == "byte":
+            return rng.randrange(256)
+        r = rng.random()
+        if r < 0.5:
+            return rng.choice(pool)
+        if r < 0.6 and lo < 0:
+            return -rng.choice(pool)
+        return rng.randrange(lo, 2 ** rng.choice([4, 8, 9, 16, 17, 33, 70]))
+    if t == "bool":
+        return rng.random() < 0.5
+    if t == "bytes":
+        n = rng.choice([0, 0, 1, 1, 2, 3, 8, 31, 32, 33, 64])
+        if rng.random() < 0.3:
+            return bytes(n)
+        return bytes(rng.randrange(256) for _ in range(n))
+    if t.startswith("bytes:"):
+        n = int(t[6:])
+        return bytes(rng.randrange(256) for _ in range(n))
+    raise ValueError("no generator for type " + t)
+
+
+def search(req):
+    """bounded random search for an input on which the REAL function violates the clause"""
+    rng = random.Random(req.get("seed", 0))
+    tried = 0
+    for i in range(req.get("budget", 3000)):
+        try:
+            args = {k: gen_value(t, rng) for k, t in req["types"].items()}
+        except ValueError as e:
+            return {"ok": True, "found": False, "reason": str(e), "tried": tried}
+        r = replay(dict(func=req["func"], args={k: enc(v) for k, v in args.items()}, clause=req["clause"], requires=req.get("requires", [])))
+        if not r.get("precondition_holds", False):
+            continue
+        tried += 1
+        if r.get("clause_holds") is False:
+            return {"ok": True, "found": True, "args": {k: enc(v) for k, v in args.items()}, "answer": r, "tried": tried}
+    return {"ok": True, "found": False, "tried": tried}
+
+
+def excmatch(raised, declared):
+    import builtins, binascii
+    d = declared.split(".")[-1]
+    if raised == d:
+        return True
+    rc = getattr(builtins, raised, None) or (binascii.Error if raised == "Error" else None)
+    dc = getattr(builtins, d, None) or (binascii.Error if declared == "binascii.Error" else None)
+    if rc is not None and dc is not None and isinstance(rc, type) and isinstance(dc, type):
+        return issubclass(rc, dc)
+    return False
 
 
 def main():
